@@ -2,6 +2,7 @@ package checks
 
 import (
 	"fmt"
+	"github.com/samber/ro"
 
 	"verif.local/harness/cat"
 	"verif.local/harness/fw"
@@ -130,6 +131,18 @@ func prefixCase(row cat.Row, word []h.Ev) fw.Case {
 	}}
 }
 
+func gridCase(name, op string, want []h.Ev, run func(rec *h.Rec)) fw.Case {
+	return fw.Case{Name: name, Make: func() fw.Instance {
+		rec := h.NewRec("out")
+		return fw.Instance{Body: func() { run(rec) }, Outcome: rec.Trace, Check: func(r *vrt.Result) []fw.Violation {
+			if rec.Trace() != h.Word(want) {
+				return []fw.Violation{fw.V("creation/"+op+"/output-vs-definition/"+diffClass(rec.Events(), want), fmt.Sprintf("%s delivered [%s]; the definition gives [%s]", name, rec.Trace(), h.Word(want)))}
+			}
+			return nil
+		}}
+	}}
+}
+
 func init() {
 	Registry["C04"] = func(tier string) []fw.Scenario {
 		maxVals := 3
@@ -158,6 +171,55 @@ func init() {
 			}
 			addRow(row, mv)
 		}
+		// parameter grids of the creation operators whose output is a function of numbers: every start / end
+		// in -3..3 (thorough -5..5) and steps that do and do not divide the width
+		lim := int64(3)
+		if tier == "thorough" {
+			lim = 5
+		}
+		scns = append(scns, fw.Scenario{ID: "C04/creation-grid/Range", Group: "Range", Run: func(c *fw.Ctx) {
+			for a := -lim; a <= lim; a++ {
+				for b := -lim; b <= lim; b++ {
+					a, b := a, b
+					var want []h.Ev
+					if a < b {
+						for x := a; x < b; x++ {
+							want = append(want, h.Nx(x))
+						}
+					} else {
+						for x := a; x > b; x-- {
+							want = append(want, h.Nx(x))
+						}
+					}
+					want = append(want, h.Co())
+					c.Explore(gridCase(fmt.Sprintf("Range(%d,%d)", a, b), "Range", want, func(rec *h.Rec) { ro.Range(a, b).Subscribe(h.Observer[int64](rec)) }))
+				}
+			}
+		}})
+		scns = append(scns, fw.Scenario{ID: "C04/creation-grid/RangeWithStep", Group: "Range", Run: func(c *fw.Ctx) {
+			for a := -lim; a <= lim; a++ {
+				for b := -lim; b <= lim; b++ {
+					for _, step := range []float64{0.5, 1, 1.5, 2, 2.5, 3, 7} {
+						a, b, step := float64(a), float64(b), step
+						var want []h.Ev
+						// [start, end): start, start+-step, ... while still short of end (documented half-open range)
+						if a < b {
+							for k := 0; a+float64(k)*step < b; k++ {
+								want = append(want, h.Nx(a+float64(k)*step))
+							}
+						} else {
+							for k := 0; a-float64(k)*step > b; k++ {
+								want = append(want, h.Nx(a-float64(k)*step))
+							}
+						}
+						want = append(want, h.Co())
+						c.Explore(gridCase(fmt.Sprintf("RangeWithStep(%v,%v,%v)", a, b, step), "RangeWithStep", want, func(rec *h.Rec) {
+							ro.RangeWithStep(a, b, step).Subscribe(h.Observer[float64](rec))
+						}))
+					}
+				}
+			}
+		}})
 		// a chain behaves as the composition of its parts: all ordered pairs of chainable rows
 		chain := cat.ChainRows()
 		pairVals := 2
